@@ -132,10 +132,19 @@ func SelfTest(dir string) (ran int, failures []string) {
 		c.noSilentSkipRule(r, "skip", "eap")
 		c.lostReceiverStoreRule(r, "recv", "eap")
 		c.formatRecursionRule(r, "fmt")
+		var eapFns []*ssa.Function
+		for _, fn := range c.ModFuncs {
+			if c.relPkg(fn) == "eap" && len(fn.Blocks) > 0 {
+				eapFns = append(eapFns, fn)
+			}
+		}
+		c.readFullRule(r, "read", eapFns)
+		c.wrapOfNilRule(r, "wrap", eapFns, 0)
 		for _, w := range []struct {
 			rule, typ string
 			flag      bool
-		}{{"skip", "FlagSkip", true}, {"skip", "PassSkip", false}, {"recv", "FlagRecv", true}, {"recv", "PassRecv", false}, {"fmt", "FlagFmt", true}, {"fmt", "PassFmt", false}} {
+		}{{"skip", "FlagSkip", true}, {"skip", "PassSkip", false}, {"recv", "FlagRecv", true}, {"recv", "PassRecv", false}, {"fmt", "FlagFmt", true}, {"fmt", "PassFmt", false},
+			{"read", "FlagRead", true}, {"read", "PassRead", false}, {"wrap", "FlagWrap", true}, {"wrap", "PassWrap", false}} {
 			seen, bad := 0, 0
 			for _, o := range r.Obls {
 				if o.Rule == w.rule && strings.Contains(o.Key, w.typ) {
